@@ -256,7 +256,7 @@ func (l *queue) Empty() bool {
 	if l.head == nil || l.tail == nil || len(l.segments) == 0 {
 		return true
 	}
-	if l.head == l.tail && l.head.pos == l.tail.filePos()-footerSize {
+	if l.head == l.tail && l.head.empty() {
 		return true
 	}
 	return false
@@ -730,6 +730,13 @@ func (l *segment) advance() error {
 	}
 
 	return nil
+}
+
+// empty reports whether the segment holds no unread block, neither on disk nor buffered.
+func (l *segment) empty() bool {
+	l.mu.RLock()
+	defer l.mu.RUnlock()
+	return l.pos == l.size-footerSize && (l.buf == nil || l.buf.Len() == 0)
 }
 
 func (l *segment) close() error {
